@@ -278,6 +278,66 @@ func main() {
 		e.Strs("seqqlNestingStmts", sqStmts, "parseSeqQLSubexpr: top-level statements that mention lex.nesting, in order (cut to 60 characters)")
 		e.Strs("legacyNestingStmts", lgStmts, "parseSubexpr: top-level statements that mention qp.nesting, in order (cut to 60 characters)")
 		// --- the field type switches
+		// the word-rune predicates of the two text term builders (what SV.Parser.isWordRune transcribes)
+		wordConds := func(file, recv, fn string, inFuncLit bool) ([]string, bool) {
+			f, err := r.Load(file)
+			if err != nil {
+				return nil, false
+			}
+			fd := f.Func(recv, fn)
+			if fd == nil {
+				return nil, false
+			}
+			var res []string
+			ast.Inspect(fd.Body, func(n ast.Node) bool {
+				if inFuncLit {
+					if fl, ok := n.(*ast.FuncLit); ok {
+						ast.Inspect(fl.Body, func(m ast.Node) bool {
+							if is, ok := m.(*ast.IfStmt); ok {
+								res = append(res, f.Render(is.Cond))
+							}
+							return true
+						})
+						return false
+					}
+					return true
+				}
+				if is, ok := n.(*ast.IfStmt); ok && strings.Contains(f.Render(is.Cond), "unicode.") {
+					res = append(res, f.Render(is.Cond))
+				}
+				return true
+			})
+			return res, true
+		}
+		if cs, ok := wordConds("parser/seqql_filter.go", "", "parseSeqQLText", false); !ok {
+			e.Missing("seqqlWordRuneConds", "parseSeqQLText not found")
+		} else {
+			e.Strs("seqqlWordRuneConds", cs, "parseSeqQLText: conditions that mention the unicode package")
+		}
+		if cs, ok := wordConds("parser/token_parser.go", "tokenParser", "parseLiteral", true); !ok {
+			e.Missing("legacyWordRuneConds", "parseLiteral not found")
+		} else {
+			e.Strs("legacyWordRuneConds", cs, "parseLiteral: conditions of the text builder's isIndexed closure")
+		}
+		if f, err := r.Load("parser/seqql.go"); err != nil {
+			e.Missing("tokenRuneExpr", err)
+		} else if fd := f.Func("", "isTokenRune"); fd == nil {
+			e.Missing("tokenRuneExpr", "isTokenRune not found")
+		} else {
+			var rets []string
+			ast.Inspect(fd.Body, func(n ast.Node) bool {
+				if rs, ok := n.(*ast.ReturnStmt); ok && len(rs.Results) == 1 {
+					rets = append(rets, f.Render(rs.Results[0]))
+				}
+				return true
+			})
+			e.Strs("tokenRuneExpr", rets, "isTokenRune: the returned expression")
+			if fd := f.Func("", "unquotePrefix"); fd == nil {
+				e.Missing("unquotePrefixConds", "unquotePrefix not found")
+			} else {
+				e.Strs("unquotePrefixConds", conds(f, fd.Body), "unquotePrefix: conditions in source order")
+			}
+		}
 		// The switch is looked for in every function of the file; the flags the driver needs are ALWAYS emitted (conservative
 		// default when the shape is not recognised, plus a Missing marker), so that a restructured source still lets the
 		// harness run and search for a failing input.
